@@ -70,6 +70,7 @@ type stmtState struct {
 	actAtD0     int         // global activity counter when d0 was taken
 	cpAct       map[int]int // checkpoint -> (global activity, own) when taken
 	cpOwn       map[int]int
+	acc0        map[string]string // accounting mismatches (object+field -> message) when the commit began
 }
 
 // Cur is the monitor used by the registered plugin and the statement observer.
@@ -607,6 +608,7 @@ func (m *Monitor) onStatement(s *framework.Statement, phase string, cp int) {
 			m.Stats["op_log_len_"+bucket(len(s.VerifOps()))]++
 			st.evStart = m.eventCount()
 			st.expect = expectedEffect(s.VerifOps())
+			st.acc0 = m.accountingMismatches()
 		}
 	case "commit-end":
 		m.inCommit = nil
@@ -620,7 +622,43 @@ func (m *Monitor) onStatement(s *framework.Statement, phase string, cp int) {
 		}
 		m.Stats["commits_checked"]++
 		m.checkCommit(st)
+		// a commit emits decisions; it must not change what the scheduler believes beyond the steps it undoes after a
+		// failed call, and that undo must be exact: the accounting recomputed from the pods must be as consistent
+		// after the commit as it was before it
+		if st.acc0 != nil {
+			for k, msg := range m.accountingMismatches() {
+				if _, before := st.acc0[k]; !before {
+					m.Stats["commit_accounting_new_mismatches"]++
+					m.report13("commit-breaks-accounting:"+SigOf(msg), "after the commit the scheduler's view no longer agrees with its pods (it did before the commit): "+msg)
+				}
+			}
+			m.Stats["commit_accounting_comparisons"]++
+		}
 	}
+}
+
+// accountingMismatches recomputes node, workload and queue accounting from the pods (the C14 oracle) and returns the
+// mismatches keyed by object and field.
+func (m *Monitor) accountingMismatches() map[string]string {
+	if m.ssn == nil || m.ssn.ClusterInfo == nil {
+		return nil
+	}
+	out := map[string]string{}
+	scratch := map[string]int{}
+	add := func(msgs []string) {
+		for _, s := range msgs {
+			f := strings.Fields(s)
+			k := s
+			if len(f) >= 3 {
+				k = strings.Join(f[:3], " ")
+			}
+			out[k] = s
+		}
+	}
+	add(CheckNodes(m.ssn, m.ghosts(), scratch))
+	add(CheckJobs(m.ssn, scratch))
+	add(CheckQueues(m.ssn, sched.CurrentProportion, scratch))
+	return out
 }
 
 func bucket(n int) string {
